@@ -23,8 +23,8 @@ ASSUMPTIONS = ["CPython ast"]
 
 def run(ck):
     ck.rule("R1", "is_expr_cst accepts only integers and initial-register identifiers", floor=1)
-    ck.rule("R2", "SymbolicState.merge keeps a binding only when both states hold it with equal values", floor=2)
-    ck.rule("R3", "only identifiers are substituted; sources are rewritten before the block is executed", floor=2)
+    ck.rule("R2", "SymbolicState.merge keeps a binding only when both states hold it with equal values", floor=1)
+    ck.rule("R3", "only identifiers are substituted; sources are rewritten before the block is executed", floor=1)
     ck.rule("R4", "a second state for a block is merged with the first", floor=1)
     ck.rule("R5", "the end-of-block state is handed to every possible destination that is not a memory cell", floor=1)
     _successor_rules(ck)
@@ -89,7 +89,44 @@ def run(ck):
     ck.ob("R3", "eval_updt_irblock:rewrite-before-execute", ok, m.where(fn),
           "an assignment block is executed before its sources are rewritten: the sources would be rewritten with values the block itself assigns")
     fn = m.func("add_state")
-    ok = any(isinstance(n, ast.Assign) and norm(n.targets[0]) == "states[addr]" and norm(n.value) == "states[addr].merge(state)" for n in walk_body(fn))
+    # per path of add_state (sa/symval): what is finally stored under the block's key K, depending on whether K was already known
+    from sa import symval as _sv
+    ps_ = [a.arg for a in fn.args.args]
+    st_p, state_p = ps_[2], ps_[4]
+    merged = fresh = False
+    bad_ = []
+    for pth in _sv.paths(fn.body, limit=32):
+        stores = [(norm(k), norm(v)) for k, v in pth.env.items()] if False else []
+        # the last store into the table on this path (assignments to subscripts are kept as effects `__store__(target, value)`)
+        last = None
+        for e in pth.effects:
+            if isinstance(e, ast.Call) and norm(e.func) == "__store__" and len(e.args) == 2 and isinstance(e.args[0], ast.Subscript) and norm(e.args[0].value) == st_p:
+                last = e
+        if last is None:
+            bad_.append("a path [%s] leaves add_state without recording a state for the block" % ", ".join("%s is %s" % (norm(t), b) for t, b in pth.conds))
+            continue
+        K = norm(last.args[0].slice)
+        V = norm(last.args[1])
+        known = None
+        for t, b in pth.conds:
+            tt_ = norm(t)
+            if tt_ == "%s in %s" % (K, st_p):
+                known = b
+            elif tt_ == "%s not in %s" % (K, st_p):
+                known = not b
+        if known is True:
+            if V in ("%s[%s].merge(%s)" % (st_p, K, state_p), "%s.merge(%s[%s])" % (state_p, st_p, K)):
+                merged = True
+            else:
+                bad_.append("key already known: stores `%s`" % V)
+        elif known is False:
+            if V == state_p:
+                fresh = True
+            else:
+                bad_.append("new key: stores `%s`" % V)
+        else:
+            bad_.append("stores `%s` without knowing whether the block was reached before" % V)
+    ok = merged and fresh and not bad_
     ck.ob("R4", "add_state", ok, m.where(fn), "a state reaching an already visited block replaces the recorded one instead of being merged with it")
 
 
